@@ -339,7 +339,13 @@ def enumNamesD (j : Json) : Except String Json := do
   let values ← getCpsList j "values"
   match Enums.sanitizeEnumNames U names values with
   | none => pure (Json.mkObj [("pairs", Json.null)])
-  | some ps => pure (Json.mkObj [("pairs", Json.arr (ps.map fun p => Json.arr #[jcps p.1, jcps p.2]).toArray)])
+  | some ps =>
+    -- the third pass (GenerateGoSchema): names in ascending order, renamed by SchemaNameToTypeName, a taken name numbered
+    let sorted := ps.mergeSort fun a b => !Responses.lexLt b.1 a.1
+    let third := match Enums.pass3 (Names.schemaNameToTypeName U (Names.toCamelCase U)) sorted [] with
+      | some out => Json.arr (out.map fun p => Json.arr #[jcps p.1, jcps p.2]).toArray
+      | none => Json.null
+    pure (Json.mkObj [("pairs", Json.arr (ps.map fun p => Json.arr #[jcps p.1, jcps p.2]).toArray), ("third", third)])
 
 /-- `GenerateEnums`: which enums are prefixed and the constant names they emit. -/
 def enumFlagsD (j : Json) : Except String Json := do
